@@ -141,6 +141,9 @@ def advertised(res, arch):
     return {'kex': p.kex, 'key': p.key, 'enc': p.enc, 'mac': p.mac}
 
 
+WORK_CAP_BITS = 16384
+
+
 def judge_c09(res, arch, plan):
     """-> list of (signature, detail)"""
     probs = []
@@ -158,6 +161,10 @@ def judge_c09(res, arch, plan):
         site = _trace_site(res.stdout + res.stderr)
         probs.append(('status-%s:%s:%s' % (res.status, last.split(':')[0][:40], site), last[:300]))
         return probs
+    # work chosen by the peer: a DH secret drawn for a modulus far beyond anything the tool asks for (it requests at most 8192 bits;
+    # a 32768-bit group costs about a minute of exponentiation per probe, which no timeout covers)
+    if getattr(w, 'max_random_range_bits', 0) > WORK_CAP_BITS:
+        probs.append(('unbounded-work:dh-secret-for-a-%d-bit-peer-chosen-modulus' % (1 << (w.max_random_range_bits - 1).bit_length()), 'secret of %d bits drawn' % w.max_random_range_bits))
     bound = TIMEOUT * (nconn + 2) + 2.0
     if res.clock > bound:
         probs.append(('too-slow:%s' % _site_sig(plan_t, w), 'virtual time %.1fs > %.1fs for %d connections' % (res.clock, bound, nconn)))
